@@ -114,7 +114,7 @@ def _wasm_forbidden(exclude=()):
 
 def wasm_profile(exclude=(), **kw):
     base = dict(name="c23", ptr_bits=32, rotates=False, copyblob=False, global_refs=False, forbidden=_wasm_forbidden(exclude),
-                permute_blocks=True, max_funcs=3, max_blocks=8, distinct_cjmp_targets=True, obs_type="i64", literals=False, indirect_boost=2, observe_pct=60)
+                permute_blocks=True, max_funcs=3, max_blocks=8, distinct_cjmp_targets=True, obs_type="i64", literals=False, indirect_boost=2, observe_pct=60, swap_cjmp_arms=50)
     base.update(kw)
     return genir.Profile(**base)
 
@@ -676,8 +676,8 @@ def hazards(m):
                     sn = ins.src.ty.name
                     if (sn, tn) in _SAME_SIZE_SIGN:
                         hz.add("KF8")
-                    elif tn in NARROW and sn != tn and (sn, tn) not in _WIDENING:
-                        hz.add("KF1")
+                    elif tn in NARROW and sn != tn and sn != "ptr" and (sn, tn) not in _WIDENING:
+                        hz.add("KF1")  # (ptr -> u32 sign-extends too, but addresses are far below 2^31)
                     if sn in ("f32", "f64") and tn not in ("f32", "f64"):
                         hz.add("KF2")
                     if (sn, tn) == ("u32", "f32"):
@@ -699,43 +699,65 @@ def phi_on_branch_edge(desc):
     return False
 
 
-def split_phi_edges(desc):
-    """Semantics-preserving: every edge from a two-way branch into a block with phis gets its own empty block
-    (the shape C23-KF7 needs is a phi copy placed in a block that has a second way out).  -> (description, edges split)"""
+def shadow_phis(desc):
+    """Semantics-preserving and CFG-preserving: every phi p gets a copy 't = p + 0' (floats: 'p * 1.0') right after the
+    phis of its block and every other use of p - phi inputs included - reads t.  C23-KF7 overwrites the register of p
+    at the end of a predecessor also when the other branch is taken; after the rewrite nothing reads that register
+    except the copy at the top of p's own block, where it is valid.  -> (description, number of phis rewritten)"""
     import copy
 
     desc = copy.deepcopy(desc)
     n = 0
     for f in desc["functions"]:
-        byname = {b["name"]: b for b in f["blocks"]}
-        phib = set(b["name"] for b in f["blocks"] if b["ins"] and b["ins"][0][0] == "phi")
-        new = []
-        for b in list(f["blocks"]):
-            t = b["ins"][-1]
-            if t[0] != "cjmp" or t[4] == t[5]:
-                continue
-            for pos in (4, 5):
-                tgt = t[pos]
-                if tgt not in phib:
-                    continue
-                e = "%s_e%d" % (b["name"], pos)
-                new.append({"name": e, "ins": [["jmp", tgt]]})
-                t[pos] = e
-                for ins in byname[tgt]["ins"]:
-                    if ins[0] == "phi" and b["name"] in ins[3]:
-                        ins[3][e] = ins[3].pop(b["name"])
+        ren = {}
+        for b in f["blocks"]:
+            k = 0
+            while k < len(b["ins"]) and b["ins"][k][0] == "phi":
+                k += 1
+            extra = []
+            for ins in b["ins"][:k]:
+                p, ty = ins[1], ins[2]
+                t, c = p + "_s", p + "_sc"
+                if ty in ("f32", "f64"):
+                    extra += [["const", c, ty, genir.fhex(1.0)], ["binop", t, ty, p, "*", c]]
+                else:  # '|' where ir_to_wasm has it (it cannot wrap: no C23-KF1 shape), '+' for the 64 bit types
+                    extra += [["const", c, ty, 0], ["binop", t, ty, p, "+" if ty in ("i64", "u64") else "|", c]]
+                ren[p] = t
                 n += 1
-        if new:
-            base = len(f["blocks"])
-            f["blocks"] = f["blocks"] + new
-            f["layout"] = list(f.get("layout") or range(base)) + list(range(base, base + len(new)))
+            b["ins"][k:k] = extra
+        if not ren:
+            continue
+        shadows = set(ren.values())
+        r = lambda x: ren.get(x, x) if isinstance(x, str) else x
+        for b in f["blocks"]:
+            for ins in b["ins"]:
+                k = ins[0]
+                if k == "binop":
+                    if ins[1] in shadows:
+                        continue
+                    ins[3], ins[5] = r(ins[3]), r(ins[5])
+                elif k == "unop":
+                    ins[4] = r(ins[4])
+                elif k in ("cast", "load"):
+                    ins[3] = r(ins[3])
+                elif k in ("store", "copy"):
+                    ins[1], ins[2] = r(ins[1]), r(ins[2])
+                elif k == "call":
+                    ins[3] = r(ins[3])
+                    ins[4] = [r(a) for a in ins[4]]
+                elif k == "phi":
+                    ins[3] = {bn: r(v) for bn, v in ins[3].items()}
+                elif k == "cjmp":
+                    ins[1], ins[3] = r(ins[1]), r(ins[3])
+                elif k == "ret":
+                    ins[1] = r(ins[1])
     return desc, n
 
 
 def steer(desc, exclude, excluded=None):
     """Generator-side exclusion of open findings that cannot be expressed as a Profile restriction."""
-    if "KF7" in exclude:
-        desc, n = split_phi_edges(desc)
+    if "KF7" in exclude and phi_on_branch_edge(desc):
+        desc, n = shadow_phis(desc)
         if n and excluded is not None:
             excluded["C23-KF7"] += 1
     if "KF5" in exclude:
@@ -747,6 +769,40 @@ def steer(desc, exclude, excluded=None):
                         if excluded is not None:
                             excluded["C23-KF5"] += 1
     return desc
+
+
+def _reachable(m, fname):
+    """Functions of m that a call of fname can execute (all of them when fname is unknown; every function whose
+    address is taken somewhere as soon as an indirect call is reachable)."""
+    from ppci import ir
+
+    byname = {f.name: f for f in m.functions}
+    if fname not in byname:
+        return list(m.functions)
+    taken = set()
+    for f in m.functions:
+        for b in f.blocks:
+            for ins in b.instructions:
+                if isinstance(ins, ir.Store) and isinstance(ins.value, ir.SubRoutine):
+                    taken.add(ins.value.name)
+    for v in m.variables:
+        for part in v.value or ():
+            if isinstance(part, tuple) and part[1] in byname:
+                taken.add(part[1])
+    seen, work = set(), [fname, PREFIX + "init"]
+    while work:
+        n = work.pop()
+        if n in seen or n not in byname:
+            continue
+        seen.add(n)
+        for b in byname[n].blocks:
+            for ins in b.instructions:
+                if isinstance(ins, (ir.FunctionCall, ir.ProcedureCall)):
+                    if isinstance(ins.callee, ir.SubRoutine):
+                        work.append(ins.callee.name)
+                    elif not isinstance(ins.callee, ir.ExternalSubRoutine):
+                        work.extend(taken)
+    return [byname[n] for n in seen]
 
 
 def classify(case, msg):
@@ -767,11 +823,11 @@ def classify(case, msg):
         return None
     if not semantic:
         return None
-    if any(dropped_edges(f) for f in m.functions):
+    if any(dropped_edges(f) for f in _reachable(m, msg.split("[", 1)[0])):
         return "C23-KF6"
     if "module" in case and phi_on_branch_edge(case["module"]):
         c2 = dict(case)
-        c2["module"] = split_phi_edges(case["module"])[0]
+        c2["module"] = shadow_phis(case["module"])[0]
         try:
             if run_case(c2)[0] is None:
                 return "C23-KF7"
@@ -792,7 +848,7 @@ def full_profile(exclude=()):
     forb = [x for x in _wasm_forbidden(exclude) if x not in set(_wasm_forbidden(()))]
     if "KF8" in exclude:
         forb += [("cast", a, b) for a, b in sorted(_SAME_SIZE_SIGN)]
-    return genir.Profile(name="c23-full", ptr_bits=32, permute_blocks=True, obs_type="i64", indirect_boost=2, observe_pct=60, forbidden=forb)
+    return genir.Profile(name="c23-full", ptr_bits=32, permute_blocks=True, obs_type="i64", indirect_boost=2, observe_pct=60, swap_cjmp_arms=50, forbidden=forb)
 
 
 def calls_for(draw, desc, profile):
